@@ -33,8 +33,25 @@ pub fn amp_violations(p: &StdPair) -> (Vec<(String, String)>, u64) {
     let server_addr = p.w.nodes[SERVER].addr;
     let mut challenges: BTreeMap<SocketAddr, Vec<u64>> = BTreeMap::new();
     let mut token_leak_reported = false;
+    // the server's own claim "validated by token" is honoured only where a token can have proved
+    // something: a Retry was sent to exactly that address before (Retry tokens bind IP and port), or
+    // the server had completed a handshake with that IP before (NEW_TOKEN tokens bind the IP)
     for (t, a, v, _) in &p.w.nodes[SERVER].incomings {
-        if *v {
+        if !*v {
+            continue;
+        }
+        let justified = p.w.recs.iter().any(|r| match r {
+            Rec::Emit { node, data, dst, t: te, .. } if *node == SERVER && *te <= *t => {
+                let long = data.first().map_or(false, |b| b & 0x80 != 0);
+                if long {
+                    *dst == *a && wire::parse_datagram(data, 0).0.first().map_or(false, |pk| pk.ty == PType::Retry)
+                } else {
+                    dst.ip() == a.ip()
+                }
+            }
+            _ => false,
+        });
+        if justified {
             validated.entry(*a).or_insert(*t);
         }
     }
@@ -88,7 +105,9 @@ pub fn amp_violations(p: &StdPair) -> (Vec<(String, String)>, u64) {
                 *s += data.len() as u64;
             }
             Rec::Deliver { node, idx, src, len, routed, t, injected, .. } if *node == SERVER => {
-                if matches!(routed, Routed::Conn(_) | Routed::New(_)) {
+                // (a datagram answered statelessly - Retry, refusal, INVALID_TOKEN - was received from
+                // that address all the same)
+                if matches!(routed, Routed::Conn(_) | Routed::New(_) | Routed::Response(_)) {
                     *recv.entry(*src).or_insert(0) += *len as u64;
                 }
                 if *injected {
@@ -246,6 +265,42 @@ fn run_spoofed_rebinding(base: Instant, ipv4: bool, same_ip: bool, step: u64, si
     })
 }
 
+/// A Retry token is bound to the address it was issued for: the client's token-bearing Initial reaches
+/// the server from another address (same IP other port / other IP same port / both different) that
+/// never answers. Whatever the server makes of the token, that address gets at most three times what
+/// came from it. Returns violations.
+fn run_retry_token_from_elsewhere(base: Instant, which: u8, cert: usize) -> Result<(u64, Vec<(String, String)>), String> {
+    guarded(|| {
+        let mut cfg = cfg_by_name("retry");
+        cfg.cert_len = cert;
+        let genuine = crate::sim::addr(CLIENT);
+        let fake = match which {
+            0 => SocketAddr::new(genuine.ip(), genuine.port() + 9),
+            1 => SocketAddr::new(addr(9).ip(), genuine.port()),
+            _ => addr(9),
+        };
+        let mut p = std_pair_pre(base, &cfg, Wl::W1, ReadMode::default(), |w| {
+            // emission #0 = the client's first Initial, #1 = the server's Retry, from #2 on the client's
+            // datagrams carry the token: they arrive from the other address
+            w.src_rewrite.push((CLIENT, 2, fake));
+        });
+        let mut g = 0;
+        while g < 4000 && p.w.t < Duration::from_secs(20) {
+            g += 1;
+            // the host at the other address never answers: after its token-bearing Initial the client
+            // is silent
+            if p.w.emitted >= 3 {
+                p.w.blackhole[CLIENT] = true;
+            }
+            if !p.w.step() {
+                break;
+            }
+        }
+        let (v, _) = amp_violations(&p);
+        (p.w.trace_hash(), v)
+    })
+}
+
 /// Spoofed Initial of a given size from an address that never continues
 /// `tail` = bytes of undecodable garbage after the Initial; `pkts` = number of well-formed but
 /// undecryptable coalesced Handshake-type packets after it (each 45 bytes)
@@ -358,6 +413,27 @@ pub fn main(args: &Args) -> ! {
     rep.part("handshake_ledger", json!({"configs": cs.len(), "K": k, "cases": n_hs, "executed": res.len(), "emissions_at_budget_boundary": near_total, "capped": capped}));
     if near_total == 0 {
         machinery("vacuity guard: the server never came within one datagram of its anti-amplification budget");
+    }
+    // a Retry token presented from another address than the one it was issued for
+    {
+        let mut n = 0u64;
+        for which in [0u8, 1, 2] {
+            for cert in [500usize, 6000, 10_000] {
+                n += 1;
+                rep.evaluations += 1;
+                let rj = json!({"check":"c07","kind":"retry-token-from-elsewhere","which":which,"cert":cert});
+                match run_retry_token_from_elsewhere(base, which, cert) {
+                    Err(e) => rep.violation(Violation { signature: "panic".into(), what: format!("retry token from elsewhere: panic: {e}"), replay: rj }),
+                    Ok((tr, v)) => {
+                        rep.distinct.insert(tr);
+                        for (sig, what) in v {
+                            rep.violation(Violation { signature: format!("{sig}:retry-token-from-another-address"), what: format!("the client's Initial with the Retry token reaches the server from {} (certificate {cert} bytes), nobody answers there: {what}", ["the same IP, another port", "another IP, the same port", "another IP and port"][which as usize]), replay: rj.clone() });
+                        }
+                    }
+                }
+            }
+        }
+        rep.part("retry_token_from_another_address", json!({"cases": n}));
     }
     // spoofed initials
     let mut spoof_tasks = vec![];
